@@ -6,6 +6,9 @@ The AST is the one spec/Scopes/Scopes.tla reads (statement records with field k)
   ifelse [c, then, else]   `.if c {..} else {..}` with c in {0, 1}: the branch that is not taken holds uses and macro calls only
   import [file, sid, mode, name, oid, items, block]: mode all `.import * from f`, ns `.import * as name from f`,
          sel `.import a as x, b from f` (items [name, oid, alias, aoid]); block: constants of `{ .const P = 1 }`
+  expr [paths, oidss] `.word p1 + p2` (often the same path twice)   ifdef [path, oids, body] `.if defined(path) {..}`
+  var [name, oid] `.var name = 1` (may be assigned again later in the same scope)   loop [path, oids, sid, body] `.loop path {..}`
+  pad [n] n comment lines (used to put occurrences of two files on the same coordinates)
   a use with "interp": true is rendered inside a string: `.text "{path}"`
   macrodef [name, oid, params, poids, body]  (body: uses of the parameters)      macrocall [name, oid, args] (literal arguments)
 Rendering is data: every identifier occurrence gets an oid and a position (file, line, col, len).
@@ -25,6 +28,7 @@ class Gen:
         self.two = two_files
         self.maxdepth = maxdepth
         self.defs = []           # (scope tuple, name)
+        self.consts = []         # (scope, name) of constants and variables: usable as loop counts
         self.macros = []         # macrodef statements (top level of main.asm)
         self.called = set()
 
@@ -50,7 +54,14 @@ class Gen:
                 name = self.r.choice(free)
                 used.add(name)
                 self.defs.append((scope, name))
-                out.append({"k": "const", "name": name, "oid": self.new_oid()})
+                self.consts.append((scope, name))
+                if self.r.random() < 0.35:
+                    out.append({"k": "var", "name": name, "oid": self.new_oid()})
+                    if self.r.random() < 0.6:
+                        out.append({"k": "use", "path": [], "oids": [], "scope": scope})
+                        out.append({"k": "var", "name": name, "oid": self.new_oid()})      # assigned again: same symbol
+                else:
+                    out.append({"k": "const", "name": name, "oid": self.new_oid()})
             elif allow_defs and x < 0.48 and depth < self.maxdepth and not self.two:      # (anonymous braces + .import: see checks/C16/NOTES.md)
                 self.sid += 1
                 sid = "$b%d" % self.sid
@@ -62,6 +73,13 @@ class Gen:
                 live = self.body(scope, depth + 1, self.r.randrange(1, 3), allow_defs=False)
                 dead = self.body(scope, depth + 1, self.r.randrange(1, 3), allow_defs=False)
                 out.append({"k": "ifelse", "c": c, "then": live if c else dead, "else": dead if c else live})
+            elif x < 0.64 and depth < self.maxdepth:
+                out.append({"k": "ifdef", "path": [], "oids": [], "scope": scope, "body": self.body(scope, depth + 1, self.r.randrange(1, 3), allow_defs=False)})
+            elif allow_defs and x < 0.67 and depth < self.maxdepth and self.consts and not self.two:      # (never in untaken code)
+                self.sid += 1
+                sid = "$l%d" % self.sid
+                out.append({"k": "loop", "path": [], "oids": [], "scope": scope, "want": "const", "sid": sid,
+                            "body": self.body(scope + (sid,), depth + 1, self.r.randrange(1, 3), allow_defs=False)})
             elif x < 0.72 and self.macros:
                 m = self.r.choice(self.macros)
                 self.called.add(m["name"])
@@ -71,16 +89,41 @@ class Gen:
                 self.defs.append((scope, name))
                 out.append({"k": "const", "name": name, "oid": self.new_oid()})
             else:
-                out.append({"k": "use", "path": [], "oids": [], "scope": scope})     # filled in later, when all definitions are known
+                out.append({"k": "use", "path": [], "oids": [], "scope": scope, "dead": not allow_defs})     # filled in later, when all definitions are known
         return out
 
     def fill_uses(self, prog, extra_defs):
         for st in prog:
-            if st["k"] == "use":
+            if st["k"] in ("ifdef", "loop"):
                 scope = st.pop("scope")
+                if st.pop("want", None) == "const":
+                    # a constant of an enclosing scope that no nearer label shadows; without one the loop becomes a plain block
+                    cands = [d for d in self.consts if d[0] == scope[:len(d[0])]
+                             and not any(e[1] == d[1] and len(e[0]) > len(d[0]) and e[0] == scope[:len(e[0])] for e in self.defs if e not in self.consts)]
+                    if not cands:
+                        st["k"] = "braces"
+                        st.pop("path"), st.pop("oids")
+                        self.fill_uses(st["body"], extra_defs)
+                        continue
+                    st["path"] = [self.r.choice(cands)[1]]
+                else:
+                    st["path"] = self.some_path(scope, extra_defs)
+                st["oids"] = [self.new_oid() for p in st["path"]]
+                self.fill_uses(st["body"], extra_defs)
+            elif st["k"] == "use":
+                scope = st.pop("scope")
+                dead = st.pop("dead", True)
                 st["path"] = self.some_path(scope, extra_defs)
                 st["oids"] = [self.new_oid() for p in st["path"]]          # `super` segments are occurrences too
                 st["interp"] = self.r.random() < 0.2
+                if not dead and len(st["path"]) == 1 and (scope, st["path"][0]) in self.consts and self.r.random() < 0.4:
+                    st["k"] = "fuse"                       # `.file "{c}.bin"`: the value of the constant names a data file
+                    st["interp"] = False
+                    continue
+                if not st["interp"] and self.r.random() < 0.2:            # two paths in one expression, mostly the same symbol twice
+                    p2 = list(st["path"]) if self.r.random() < 0.7 else self.some_path(scope, extra_defs)
+                    st.update(k="expr", paths=[st.pop("path"), p2], oidss=[st.pop("oids"), [self.new_oid() for _ in p2]])
+                    st.pop("interp")
             elif st["k"] in ("label", "braces", "if0"):
                 self.fill_uses(st["body"], extra_defs)
             elif st["k"] == "ifelse":
@@ -148,6 +191,13 @@ class Gen:
             imp = {"k": "import", "file": "inc.asm", "sid": "$imp%d" % self.sid, "mode": "all", "name": "", "oid": 0, "items": [], "block": []}
             mode = self.r.choice(["all", "all", "ns", "sel", "sel"])
             tops = [st for st in inc if st["k"] in ("label", "const")]
+            if mode in ("ns", "sel"):
+                # Inside a block of an imported file the real assembler continues an outward search in the IMPORTING scope (the
+                # export edge is a second parent of the block, see checks/C16/NOTES.md); with `*` that finds the same symbols,
+                # with aliases / a namespace it does not, and Scopes.tla does not model it: such files stay flat.
+                for st in tops:
+                    if st["k"] == "label":
+                        st["hasBody"], st["body"] = False, []
             if mode == "ns" and tops:
                 imp.update(mode="ns", name="m", oid=self.new_oid())
                 inc_defs = [(("m",), st["name"]) for st in tops]
@@ -163,6 +213,17 @@ class Gen:
                     inc.append({"k": "use", "path": ["P"], "oids": [self.new_oid()]})
             main = [imp] + main
         self.fill_uses(main, inc_defs)
+        if self.two:
+            # one more use of an imported symbol at the SAME line and columns in both files
+            tops = [st for st in inc if st["k"] in ("label", "const")]
+            plain = [n for (sc, n) in inc_defs if sc == () and any(t["name"] == n for t in tops)]
+            if plain:
+                n = self.r.choice(plain)
+                la, lb = len(render(main, "main.asm", {})), len(render(inc, "inc.asm", {}))
+                for prog, have in ((main, la), (inc, lb)):
+                    if have < max(la, lb):
+                        prog.append({"k": "pad", "n": max(la, lb) - have})
+                    prog.append({"k": "use", "path": [n], "oids": [self.new_oid()], "interp": False})
         return main, inc
 
 
@@ -183,7 +244,7 @@ def render(prog, fname, occ, indent=0, lines=None):
                 lines.append(pad + st["name"] + ": nop")
         elif k == "const":
             occ[st["oid"]] = {"f": fname, "line": len(lines), "col": len(pad) + 7, "len": len(st["name"]), "name": st["name"], "def": True}
-            lines.append(pad + ".const " + st["name"] + " = %d" % (st["oid"] % 200 + 1))
+            lines.append(pad + ".const " + st["name"] + " = %d" % (st["oid"] % 7 + 1))
         elif k == "braces":
             lines.append(pad + "{")
             render(st["body"], fname, occ, indent + 1, lines)
@@ -210,6 +271,33 @@ def render(prog, fname, occ, indent=0, lines=None):
         elif k == "macrocall":
             occ[st["oid"]] = {"f": fname, "line": len(lines), "col": len(pad), "len": len(st["name"]), "name": st["name"], "def": False}
             lines.append(pad + st["name"] + "(" + ", ".join(str(a) for a in st["args"]) + ")")
+        elif k == "pad":
+            lines.extend(["// pad"] * st["n"])
+        elif k == "var":
+            occ[st["oid"]] = {"f": fname, "line": len(lines), "col": len(pad) + 5, "len": len(st["name"]), "name": st["name"], "def": True}
+            lines.append(pad + ".var " + st["name"] + " = %d" % (st["oid"] % 7 + 1))
+        elif k in ("ifdef", "loop"):
+            head = ".if defined(" if k == "ifdef" else ".loop "
+            col = len(pad) + len(head)
+            for seg, oid in zip(st["path"], st["oids"]):
+                occ[oid] = {"f": fname, "line": len(lines), "col": col, "len": len(seg), "name": seg, "def": False}
+                col += len(seg) + 1
+            lines.append(pad + head + ".".join(st["path"]) + (") {" if k == "ifdef" else " {"))
+            render(st["body"], fname, occ, indent + 1, lines)
+            lines.append(pad + "}")
+        elif k == "expr":
+            col = len(pad) + 6
+            strs = []
+            for path, oids in zip(st["paths"], st["oidss"]):
+                for seg, oid in zip(path, oids):
+                    occ[oid] = {"f": fname, "line": len(lines), "col": col, "len": len(seg), "name": seg, "def": False}
+                    col += len(seg) + 1
+                col += 2                                  # " + " minus the separator already counted
+                strs.append(".".join(path))
+            lines.append(pad + ".word " + " + ".join(strs) + "  // " + strs[0])
+        elif k == "fuse":
+            occ[st["oids"][0]] = {"f": fname, "line": len(lines), "col": len(pad) + 8, "len": len(st["path"][0]), "name": st["path"][0], "def": False}
+            lines.append(pad + '.file "{' + st["path"][0] + '}.bin"')
         elif k == "use":
             col = len(pad) + (8 if st.get("interp") else 6)
             for seg, oid in zip(st["path"], st["oids"]):
